@@ -28,6 +28,13 @@ pub enum State { Undefined, Value { rev: u32, gen: u16 }, Free { gen: u16 } }
 
 pub struct Built { pub bytes: Vec<u8>, model: BTreeMap<u32, State>, size: u32, root: u32, id0: Vec<u8>, info_title: String, prev: Option<usize>, labels: Vec<String>, mentions_per_obj: usize }
 
+impl Built {
+    /// object numbers below /Size that designate no object in the newest revision: (number, Some(generation of the free entry) | None = no entry at all)
+    pub fn unused_numbers(&self) -> Vec<(u32, Option<u16>)> {
+        (1..self.size).filter_map(|n| match self.model.get(&n) { Some(State::Free { gen }) => Some((n, Some(*gen))), None | Some(State::Undefined) => Some((n, None)), _ => None }).collect()
+    }
+}
+
 fn tracked(n: u32, rev: u32, extra: Option<Obj>) -> Obj {
     let mut items = vec![("N", Obj::Int(n as i64)), ("Rev", Obj::Int(rev as i64)), ("Tag", mkpdf::st(&format!("obj {} written by section {}", n, rev)))];
     if let Some(Obj::Dict(d)) = extra { let mut o = dict(items); if let Obj::Dict(ref mut dd) = o { for (k, v) in d { dd.insert(0, (k, v)); } } return o; }
